@@ -70,7 +70,7 @@ fn write_crate(dir: &PathBuf, cases: &[ArtCase], stubbed: &[usize], has_extra: b
             main.push_str(&format!("            (\"extra\", {i}) => case_{i}::extra(key, &bytes),\n"));
         }
     }
-    main.push_str("            _ => \"err unknown case\".to_string(),\n        };\n        println!(\"{out}\");\n    }\n}\n");
+    main.push_str("            _ => \"err unknown case\".to_string(),\n        };\n        println!(\"{}\", out.replace('\\n', \" | \"));\n    }\n}\n");
     std::fs::write(dir.join("src/main.rs"), main)?;
     for (i, c) in cases.iter().enumerate() {
         let src = if stubbed.contains(&i) { stub_source() } else { case_source(c) };
